@@ -2,7 +2,7 @@
 Model Tetris/{Stack,Tracks,Compile}.v, spec Tetris/CompileSpec.v, check Tetris/CompileCheck.v,
 theorems Properties/C08.v; correspondence against layout21tetris Library::to_raw
 (RawExporter::convert) through harness/src/bin/c08.rs."""
-import json, math, copy
+import json, math, copy, os, re
 from vlib import *
 from props.kernelcommon import kernel_tie_leg
 
@@ -296,6 +296,243 @@ def directed_cases(fam):
         add("odd_crossing_clear_control", st, occ(st, horiz, 4, 0, False, 1))  # box 0..5, crossing at 15: well-formed
     return out
 
+# ------------------------------------------------------------------ audit families (2026-10-02, generator audit)
+def audit_cases(fam):
+    """Small DIRECTED families, one case per combination, for input classes the random generator never or hardly ever reaches
+    (each was checked to be absent from / rare in the quick tier): crossing layer not adjacent to the cut layer; cuts flush with the
+    outline edge, with each other and with a blocked span, in both listing orders; cuts that straddle or lie inside a blocked span;
+    assignments on blocked spans and on the very end of a cut; track references beyond the outline; instances sticking out of the
+    outline; instances of cells with as many metals as the parent or more; stacks that validation must reject (each rule) and stacks
+    just inside the rules (Repeat 0 / 1 / empty / first and last, negative overlap, primitive modes against the other axis); the via
+    table (order, duplicates, missing entries); all five metals of the sample stack; cells without metals; one track cut at every
+    crossing; 30 periods on every layer; stacks with two adjacent layers of one direction."""
+    S = {s["name"]: s for s in fam}
+    out = []
+    def add(kind, st, cells):
+        out.append({"op": "compile", "stack": st, "cells": cells, "kind": kind})
+    def addt(kind, st, n=5):
+        out.append({"op": "tracks", "n": n, "stack": st, "kind": kind})
+    def cell(metals, ox, oy, insts=(), cuts=(), assigns=()):
+        return {"metals": metals, "outline": [ox, oy], "insts": [dict(i) for i in insts], "cuts": [list(x) for x in cuts],
+                "assigns": [list(a) for a in assigns]}
+    def inst(k, x, y, rh=False, rv=False):
+        return {"cell": k, "loc": [x, y], "rh": rh, "rv": rv}
+    n, a = S["asym-noflip"], S["asym-flip"]
+    # A. cut whose crossing layer is not adjacent to the cut layer (legal: only opposite directions are demanded)
+    for st in (n, a):
+        add("cut_cross_nonadjacent", st, [cell(4, 2, 2, cuts=[[0, 1, 3, 1]])])
+        add("cut_cross_nonadjacent", st, [cell(4, 2, 2, cuts=[[3, 2, 0, 1], [3, 1, 0, 0]])])
+        add("cut_cross_nonadjacent", st, [cell(1, 2, 2, cuts=[[0, 0, 3, 2]])])
+    # B. cuts flush with the outline edge, with each other, with a blocked span (both listing orders)
+    def flush(flip, horiz, cutsize=20):
+        d0, d1 = ("h", "v") if horiz else ("v", "h")
+        return finish("flush-%s-%s-%d" % ("flip" if flip else "noflip", d0, cutsize), (100, 100),
+                      [metal(d0, cutsize, [E("s", 30), E("g", 20), E("s", 30), E("g", 20)]),
+                       metal(d1, cutsize, [E("s", 20), E("s", 20), E("g", 60)], flip=flip)], [(20, 20)])
+    def T(horiz, w, h):
+        return (w, h) if horiz else (h, w)
+    kid = cell(1, 1, 1)
+    for horiz in (True, False):
+        fn, ff = flush(False, horiz), flush(True, horiz)
+        o = T(horiz, 2, 1)
+        # crossing tracks (no flip): centres 10, 30, 110, 130; (flip) 10, 30, 170, 190 on a track of length 200
+        add("cut_flush", fn, [cell(1, *o, cuts=[[0, 0, 1, 0]])])                       # [0,20): starts at the outline edge
+        add("cut_flush", ff, [cell(1, *o, cuts=[[0, 0, 1, 3]])])                       # [180,200): ends at the outline edge
+        add("cut_flush", fn, [cell(1, *o, cuts=[[0, 0, 1, 0], [0, 0, 1, 1]])])         # [0,20) then [20,40): abutting, near first
+        add("cut_flush", fn, [cell(1, *o, cuts=[[0, 0, 1, 1], [0, 0, 1, 0]])])         # far first: second cut ends where the first starts
+        add("cut_flush", ff, [cell(1, *o, cuts=[[0, 1, 1, 3], [0, 1, 1, 2], [0, 1, 1, 0]])])
+        add("cut_flush", ff, [cell(2, *o, cuts=[[0, 1, 1, 2], [0, 1, 1, 3]], assigns=[[1, 0, 1, 1, 1]])])
+        # instance box 0..100 / 100..200 along the track, cut right behind / right before it
+        i0 = inst(0, 0, 0); i1 = inst(0, *T(horiz, 1, 0)); i1r = inst(0, *T(horiz, 2, 0), rh=horiz, rv=not horiz)
+        add("cut_flush_block", fn, [kid, cell(1, *o, insts=[i0], cuts=[[0, 0, 1, 2]])])          # block 0..100, cut [100,120)
+        f40 = flush(False, horiz, 40)
+        add("cut_straddles_block", f40, [kid, cell(1, *o, insts=[i0], cuts=[[0, 0, 1, 2]])])     # cut [90,130) starts inside the block
+        add("cut_straddles_block", f40, [kid, cell(1, *o, insts=[i1], cuts=[[0, 0, 1, 1]])])     # cut [10,50) clear (control)
+        f160 = flush(False, horiz, 160)
+        add("cut_straddles_block", f160, [kid, cell(1, *o, insts=[i1], cuts=[[0, 0, 1, 1]])])    # cut [-50,110): Err
+        f150 = finish("flush150", (100, 100), [metal("h" if horiz else "v", 150, [E("s", 30), E("g", 70)]),
+                                               metal("v" if horiz else "h", 20, [E("g", 60), E("s", 20), E("g", 20)])], [(20, 20)])
+        add("cut_straddles_block", f150, [kid, cell(1, *o, insts=[i1r], cuts=[[0, 0, 1, 0]])])   # cut [-5,145): runs into block 100..200
+        add("cut_in_blocked_span", fn, [kid, cell(1, *o, insts=[i1], cuts=[[0, 0, 1, 2]])])       # cut [100,120) inside block 100..200
+        add("cut_in_blocked_span", fn, [kid, cell(1, *o, insts=[i1r], cuts=[[0, 1, 1, 3]])])
+        # D. assignment whose crossing is the very end of a cut (outside the well-formed space; model = impl still compared)
+        add("assign_at_cut_edge", f40, [cell(2, *o, cuts=[[0, 0, 1, 1]], assigns=[[1, 0, 0, 1, 0]])])    # cut [10,50), crossing 10
+        add("assign_at_cut_edge", f40, [cell(2, *o, cuts=[[0, 0, 1, 0]], assigns=[[1, 1, 1, 0, 0]])])    # cut [-10,30): Err
+        add("assign_at_cut_edge", fn, [cell(2, *o, cuts=[[0, 0, 1, 0]], assigns=[[1, 0, 0, 1, 1]])])     # cut [0,20), crossing 30: clear (control)
+        # C. assignment whose crossing lies inside an instance's blocked span
+        kid2 = cell(2, 1, 1)
+        add("assign_on_blocked", fn, [kid, cell(2, *o, insts=[i0], assigns=[[1, 0, 0, 1, 1]])])          # lower track blocked, upper free
+        add("assign_on_blocked", fn, [kid2, cell(2, *o, insts=[i0], assigns=[[1, 1, 1, 0, 1]])])         # both blocked
+        add("assign_on_blocked", fn, [kid2, cell(2, *o, insts=[i1r], assigns=[[1, 1, 2, 0, 0], [2, 0, 1, 1, 0]])])
+        # E. references to tracks beyond the outline (legal layer, track index out of range)
+        add("ref_beyond_outline", fn, [cell(2, *o, cuts=[[0, 2, 1, 0]])])              # cut track 2 of 2
+        add("ref_beyond_outline", fn, [cell(2, *o, cuts=[[0, 0, 1, 4]])])              # crossing track 4 of 4: cut at 210 on a track of 200
+        add("ref_beyond_outline", fn, [cell(2, *o, cuts=[[0, 0, 1, 400000]])])
+        add("ref_beyond_outline", fn, [cell(2, *o, assigns=[[1, 0, 2, 1, 0]])])        # lower track beyond
+        add("ref_beyond_outline", fn, [cell(2, *o, assigns=[[1, 0, 0, 1, 4]])])        # upper track beyond
+        add("ref_beyond_outline", fn, [cell(2, *o, assigns=[[1, 1, 5, 0, 3]])])        # both beyond
+        # F. instances sticking out of the outline
+        add("inst_outside_outline", fn, [kid, cell(1, *o, insts=[inst(0, *T(horiz, 2, 0))])])             # box 200..300
+        add("inst_outside_outline", fn, [kid, cell(1, *o, insts=[inst(0, 0, 0, rh=horiz, rv=not horiz)])])  # box -100..0
+        add("inst_outside_outline", fn, [cell(1, 2, 2), cell(1, *o, insts=[inst(0, *T(horiz, 1, 0))])])   # box 100..300 and too high
+        add("inst_outside_outline", fn, [cell(1, 2, 1) if horiz else cell(1, 1, 2), cell(1, *o, insts=[inst(0, *T(horiz, 1, 0), rh=horiz, rv=not horiz)])])  # -100..100
+        add("inst_outside_outline", fn, [kid, cell(1, *o, insts=[inst(0, *T(horiz, 0, 1))])])             # beside the outline across the tracks
+        add("inst_outside_outline", fn, [kid, cell(1, *o, insts=[inst(0, *T(horiz, 0, -1))])])
+        # K. instance of a cell with as many / more metals than its parent
+        add("inst_metals_ge_parent", fn, [kid2, cell(2, *o, insts=[i1])])
+        add("inst_metals_ge_parent", fn, [kid2, cell(1, *o, insts=[i1], cuts=[[0, 0, 1, 0]])])
+        add("inst_metals_ge_parent", fn, [cell(0, 1, 1), cell(0, *o, insts=[i1])])
+        add("inst_metals_ge_parent", fn, [cell(0, 1, 1), cell(2, *o, insts=[i1, i0], assigns=[[3, 1, 0, 0, 1]])])
+    # G. stacks that validation must reject (or just accept): both through `tracks` and through `compile`
+    def two(h_entries, v_entries=None, prim=(100, 100), hkw=None, vkw=None):
+        return finish("inv", prim, [metal("h", 20, h_entries, **(hkw or {})),
+                                    metal("v", 20, v_entries or [E("s", 40), E("g", 60)], **(vkw or {}))], [(20, 20)])
+    base = [E("s", 40), E("g", 60)]
+    bad = [
+        ("zero_width_entry", two([E("s", 40), E("g", 0), E("g", 60)])),
+        ("zero_width_signal", two([E("s", 0), E("g", 100)])),
+        ("negative_width_entry", two([E("s", 140), E("g", -40)])),
+        ("negative_in_repeat", two([R([E("s", 60), E("g", -10)], 2)])),
+        ("overlap_eq_total", two(base, hkw={"overlap": 100})),
+        ("overlap_gt_total", two(base, hkw={"overlap": 130})),
+        ("no_entries", two([])),
+        ("repeat_zero_only", two([R(base, 0)])),
+        ("prim_pitch_zero_x", two(base, prim=(0, 100))),
+        ("prim_pitch_zero_y", two(base, prim=(100, 0))),
+        ("prim_pitch_negative", two(base, prim=(-100, 100))),
+        ("split_not_multiple", two([E("s", 40), E("g", 30)], hkw={"prim": "split"})),
+        ("prim_not_multiple", two(base, [E("s", 40), E("g", 30)], vkw={"prim": "prim"})),
+        ("second_layer_bad", two(base, [E("s", 40), E("g", 0)])),
+    ]
+    good = [
+        ("stack_mode_not_multiple", two([E("s", 40), E("g", 30)])),                  # PrimitiveMode::Stack: no grid demand
+        ("split_multiple_2", two([E("s", 40), E("g", 160)], hkw={"prim": "split"})),
+        ("split_uses_other_axis", two(base, prim=(70, 100), hkw={"prim": "split"})),  # h layer is checked against the y pitch only
+        ("prim_uses_other_axis", two(base, base, prim=(100, 70), vkw={"prim": "prim"})),
+        ("negative_overlap", two(base, hkw={"overlap": -20})),
+        ("repeat_zero_among", two([E("s", 40), R([E("s", 500)], 0), E("g", 60)])),
+        ("repeat_one", two([R(base, 1)])),
+        ("repeat_first_and_last", two([R([E("g", 10), E("s", 15)], 2), E("n", 20), R([E("s", 10), E("g", 5)], 2)], hkw={"flip": True})),
+        ("repeat_single_entry", two([R([E("s", 25)], 4)], hkw={"flip": True, "offset": 7})),
+        ("repeat_empty_body", two([E("s", 40), R([], 3), E("g", 60)])),
+    ]
+    for nm, st in bad:
+        addt("stack_invalid:" + nm, st)
+        add("stack_invalid:" + nm, st, [cell(2, 2, 2, cuts=[[0, 0, 1, 0]])])
+    for nm, st in good:
+        addt("stack_edge:" + nm, st, 9)
+        p = plen(st["metals"][0])
+        oy = 2 * p // math.gcd(2 * p, st["prim"][1])
+        add("stack_edge:" + nm, st, [cell(2, 2, oy, cuts=[[0, 1, 1, 0]], assigns=[[1, 0, 0, 1, 1]])])
+    # M. via table: order, extra entries, missing entry
+    asg = [cell(3, 2, 2, assigns=[[1, 0, 0, 1, 1], [2, 2, 1, 1, 0]])]
+    st = copy.deepcopy(a); st["vias"].reverse(); st["name"] = "vias-reversed"; add("via_table", st, asg)
+    st = copy.deepcopy(a); st["vias"].insert(0, {"bot": None, "top": 0, "size": [10, 10], "raw": 9044}); st["name"] = "vias-prim-first"; add("via_table", st, asg)
+    st = copy.deepcopy(a); st["vias"].insert(0, {"bot": 1, "top": 3, "size": [8, 12], "raw": 9044}); st["name"] = "vias-duplicate-bot"; add("via_table", st, asg)
+    st = copy.deepcopy(a); del st["vias"][1]; st["name"] = "vias-missing-1"; add("via_table", st, asg)
+    st = copy.deepcopy(a); st["vias"] = []; st["name"] = "vias-none"; add("via_table", st, asg)
+    st = copy.deepcopy(a); st["vias"] = []; st["name"] = "vias-none"; add("via_table", st, [cell(3, 2, 2, cuts=[[0, 0, 1, 0]])])
+    st = copy.deepcopy(a); st["vias"][0]["bot"], st["vias"][0]["top"] = 1, 0; st["name"] = "vias-upside-down"; add("via_table", st, asg)
+    # I. every metal of the five-metal sample stack; a cell without metals
+    add("five_metals", S["pdka"], [cell(2, 100, 10), cell(5, 200, 20, insts=[inst(0, 20, 2)], cuts=[[4, 3, 3, 2], [3, 1, 4, 5]],
+                                                          assigns=[[1, 4, 1, 3, 1], [2, 3, 4, 4, 9], [3, 2, 0, 3, 0]])])
+    add("zero_metals", n, [cell(0, 1, 1), cell(0, 3, 2, insts=[inst(0, 1, 1, True, True)])])
+    add("zero_metals", n, [cell(0, 2, 2, cuts=[[0, 0, 1, 0]])])
+    add("zero_metals", n, [cell(0, 2, 2, assigns=[[1, 0, 0, 1, 0]])])
+    # Q. one track cut at every crossing, in a scrambled listing order; many periods on every layer
+    order = [(7 * i) % 40 for i in range(40)]
+    add("many_cuts_one_track", a, [cell(2, 10, 10, cuts=[[0, 3, 1, k] for k in order if k < 10])])
+    add("many_cuts_one_track", a, [cell(2, 40, 4, cuts=[[0, 3, 1, k] for k in order])])
+    add("many_periods", a, [cell(4, 30, 30, cuts=[[0, 27, 1, 28], [1, 29, 2, 1], [2, 28, 3, 58], [3, 58, 2, 29]],
+                                 assigns=[[1, 0, 29, 1, 0], [2, 1, 28, 2, 29], [3, 3, 59, 2, 28]])])
+    # two adjacent layers of one direction (no assignment between them, cuts only by a layer of the other direction; lcm pitches)
+    hhv = finish("h-h-v", (100, 100), [metal("h", 20, [E("s", 40), E("g", 30)]), metal("h", 20, [E("g", 30), E("s", 40), E("g", 80)]),
+                                        metal("v", 20, [E("s", 30), E("g", 20)]), metal("v", 20, [E("g", 100), E("s", 50), E("g", 50)])],
+                 [(20, 20), (20, 24), (24, 20)])           # pitches 70, 150 (lcm with the primitive pitch: 700, 2100), 50, 200
+    addt("same_dir_adjacent", hhv, 7)
+    add("same_dir_adjacent", hhv, [cell(4, 4, 21, assigns=[[1, 0, 0, 1, 0]])])                     # h on h: Err
+    add("same_dir_adjacent", hhv, [cell(4, 4, 21, assigns=[[1, 3, 0, 2, 1]])])                     # v on v: Err
+    add("same_dir_adjacent", hhv, [cell(4, 4, 21, assigns=[[1, 1, 1, 2, 3], [2, 2, 0, 1, 0]], cuts=[[0, 2, 2, 5], [1, 0, 3, 1], [3, 0, 0, 1], [2, 7, 1, 1]])])
+    add("same_dir_adjacent", hhv, [cell(2, 4, 21, cuts=[[1, 1, 2, 0], [0, 0, 3, 0]])])
+    add("same_dir_adjacent", hhv, [cell(2, 4, 21, cuts=[[1, 1, 0, 0]])])                           # h cut by h: Err
+    return out
+
+# ------------------------------------------------------------------ stacks with a layer that has no raw layer (2026-10-02)
+def no_raw_layer_cases(fam):
+    """Family `stack_no_raw_layer`: a metal layer (each index) or a via layer (each index, also the primitive via of the sample
+    stack, also all of them) of the stack has `raw: None`.  Such stacks are outside wf_stackb (the tiling / net clauses are silent)
+    but INSIDE the no-panic clause ("either reports an error or produces shapes").  Every `.raw.unwrap()` site of the layout
+    exporter is reached: export_track through an empty cell, a cell with cuts, a cell whose layer is covered by an instance (empty
+    wire pieces are still drawn), rails; the via of an assignment.  With each: the same stack and a cell that never draws on the
+    raw-less layer (Ok as found, Err once export_stack checks the stack), inputs that fail before the unwrap is reached (Err either
+    way), the `tracks` op (never looks at raw layers) and the complete stack as control.  The unwrap sites of export_abstract are
+    outside this model (cells have a layout view only); they sit behind the same export_stack check."""
+    S = {s["name"]: s for s in fam}
+    out = []
+    def add(sub, st, cells):
+        out.append({"op": "compile", "stack": st, "cells": cells, "kind": "stack_no_raw_layer:" + sub})
+    def cell(metals, ox, oy, insts=(), cuts=(), assigns=()):
+        return {"metals": metals, "outline": [ox, oy], "insts": [dict(i) for i in insts], "cuts": [list(x) for x in cuts],
+                "assigns": [list(a) for a in assigns]}
+    def without(st, name, metals=(), vias=()):
+        t = copy.deepcopy(st); t["name"] = name
+        for k in metals: t["metals"][k]["raw"] = None
+        for k in vias: t["vias"][k]["raw"] = None
+        return t
+    # the smallest stack there is: one metal, no via; one empty 1x1 cell
+    tiny = finish("noraw-one-metal", (100, 100), [metal("h", 20, [E("s", 40), E("g", 60)])], [])
+    add("metal", without(tiny, "noraw-one-metal", metals=[0]), [cell(1, 1, 1)])
+    add("control", tiny, [cell(1, 1, 1)])
+    n = S["asym-noflip"]
+    for k in range(4):
+        st = without(n, "noraw-metal%d" % k, metals=[k])
+        add("metal", st, [cell(k + 1, 1, 1)])                                              # export_track on layer k, empty cell
+        add("metal", st, [cell(4, 2, 2)])
+        other = k + 1 if k < 3 else k - 1
+        add("metal", st, [cell(4, 2, 2, cuts=[[k, 0, other, 1]])])                          # a cut on the raw-less layer
+        add("metal", st, [cell(4, 2, 2, cuts=[[other, 0, k, 1]])])                          # the raw-less layer only as crossing layer
+        lo = min(k, other)
+        add("metal", st, [cell(4, 2, 2, assigns=[[1, lo, 0, lo + 1, 1]])])                  # an assignment touching it
+        add("metal", st, [cell(k + 1, 1, 1), cell(k + 1, 2, 2, insts=[{"cell": 0, "loc": [0, 0], "rh": False, "rv": False}])])  # first cell reaches it
+        add("metal", st, [cell(k + 1, 2, 2), cell(k + 1, 2, 2, insts=[{"cell": 0, "loc": [0, 0], "rh": False, "rv": False}])])  # layer k wholly blocked in the parent
+        add("undrawn", st, [cell(k, 1, 1)])                                                # the cell stops below layer k
+        add("undrawn", st, [cell(0, 1, 1), cell(k, 2, 2, insts=[{"cell": 0, "loc": [1, 1], "rh": True, "rv": True}])])
+        if k >= 2:
+            add("undrawn", st, [cell(k, 2, 2, cuts=[[0, 0, 1, 1]], assigns=[[1, 0, 1, 1, 0]])])
+        add("early_err", st, [cell(k + 1, 2, 2, cuts=[[0, 0, 7, 0]])])                      # validation fails first
+        add("metal", st, [cell(5, 2, 2)])                                                  # more metals than the stack: layer k is drawn before layer 4 is missed
+        out.append({"op": "tracks", "n": 3, "stack": st, "kind": "stack_no_raw_layer:tracks"})
+    for j in range(3):
+        st = without(n, "noraw-via%d" % j, vias=[j])
+        add("via", st, [cell(4, 2, 2, assigns=[[1, j, 0, j + 1, 1]])])                      # the via of the assignment
+        add("via", st, [cell(4, 2, 2, assigns=[[1, j + 1, 1, j, 0]])])                      # given from the upper track
+        add("via", st, [cell(j + 2, 2, 2, cuts=[[j, 1, j + 1, 0]], assigns=[[1, j, 0, j + 1, 1], [2, j, 1, j + 1, 1]])])
+        add("undrawn", st, [cell(4, 2, 2)])                                                # no assignment at all
+        jj = (j + 1) % 3
+        add("undrawn", st, [cell(4, 2, 2, assigns=[[1, jj, 0, jj + 1, 1]])])                # only another via is drawn
+        add("early_err", st, [cell(4, 2, 2, assigns=[[0, j, 0, j + 1, 1]])])                # empty net: validation fails first
+    st = without(n, "noraw-all", metals=range(4), vias=range(3))
+    add("metal", st, [cell(1, 1, 1)])
+    add("metal", st, [cell(4, 2, 2, assigns=[[1, 0, 0, 1, 1]])])
+    add("undrawn", st, [cell(0, 1, 1)])
+    rev = without(n, "noraw-via1-reversed", vias=[1]); rev["vias"].reverse()
+    add("via", rev, [cell(3, 2, 2, assigns=[[1, 1, 0, 2, 1]])])
+    # the sample stack: rails (export_track of a rail), the primitive via (never drawn by the exporter), the top metal
+    p = S["pdka"]
+    add("metal", without(p, "pdka-noraw-metal0", metals=[0]), [cell(1, 1, 1)])
+    add("metal", without(p, "pdka-noraw-metal4", metals=[4]), [cell(5, 200, 20, assigns=[[1, 4, 1, 3, 1]])])
+    add("undrawn", without(p, "pdka-noraw-metal4", metals=[4]), [cell(3, 50, 5, cuts=[[0, 1, 1, 1]], assigns=[[1, 1, 4, 0, 2]])])
+    add("undrawn", without(p, "pdka-noraw-primvia", vias=[0]), [cell(3, 50, 5, cuts=[[0, 1, 1, 1]], assigns=[[1, 1, 4, 0, 2]])])
+    add("via", without(p, "pdka-noraw-via1", vias=[1]), [cell(3, 50, 5, assigns=[[1, 1, 4, 0, 2]])])
+    # raw-less AND invalid: stack validation fails first
+    bad = without(n, "noraw-invalid", metals=[0]); bad["metals"][1]["entries"] = [E("s", 40), E("g", 0)]
+    add("early_err", bad, [cell(1, 1, 1)])
+    # controls: the complete stack, same cells
+    add("control", n, [cell(1, 1, 1)])
+    add("control", n, [cell(4, 2, 2, assigns=[[1, 0, 0, 1, 1]])])
+    add("control", n, [cell(4, 2, 2, assigns=[[1, 2, 1, 1, 0]])])
+    return out
+
 # ------------------------------------------------------------------ known-finding classes (decidable on the case)
 def case_classes(case):
     st = case["stack"]; cl = set()
@@ -321,6 +558,8 @@ def case_classes(case):
                 cl.add("layer-above-cell-metals")
     if any(nsig(m) == 0 for m in st["metals"]):
         cl.add("layer-without-signal-tracks")
+    if any(m["raw"] is None for m in st["metals"]) or any(v["raw"] is None for v in st["vias"]):
+        cl.add("stack-layer-without-raw-layer")
     return cl
 
 # ------------------------------------------------------------------ Coq terms
@@ -392,20 +631,57 @@ def evaluate(chk, fx, cases, tag, shard=120):
     return out
 
 # ------------------------------------------------------------------ which variant of the code is in /repo
-def detect_variant(fam):
-    """five sentinel cases, one per repair; returns (flags, description)"""
+def export_stack_marker():
+    """The sixth flag (fx_raw, fix-stack-raw-layers) is READ FROM THE SOURCE TEXT on every run: the body of
+    `RawExporter::export_stack` in layout21tetris/src/conv/raw.rs.  True = it checks the raw layer of the metals and of the vias,
+    False = it mentions no raw layer at all (the code as found), None = neither form (the tie between model and source is broken)."""
+    from vlib import REPO
+    try:
+        src = open(os.path.join(REPO, "layout21tetris/src/conv/raw.rs"), encoding="utf8").read()
+    except OSError:
+        return None, "conv/raw.rs not readable"
+    i = src.find("fn export_stack(")
+    if i < 0:
+        return None, "fn export_stack not found"
+    m = re.search(r"\n    (?:///|(?:pub(?:\([a-z]+\))? )?fn )", src[i:])
+    body = src[i:i + m.start()] if m else src[i:]
+    body = re.sub(r"//[^\n]*", "", body)                      # comments do not count
+    has_metal = re.search(r"self\.stack\.metal\([^)]*\)\?\s*\.raw\s*\.is_none\(\)", body) is not None and "self.stack.pitches.len()" in body
+    has_via = re.search(r"in self\.stack\.vias\.iter\(\)", body) is not None and len(re.findall(r"\.raw\s*\.is_none\(\)", body)) >= 2
+    if has_metal and has_via and body.count("return self.fail(") >= 4:
+        return True, "export_stack checks the raw layer of every metal and via layer"
+    if re.search(r"\.raw\b", body) is None and body.count("return self.fail(") == 2:
+        return False, "export_stack checks rawlayers and boundary_layer only"
+    return None, "export_stack has neither the form as found nor the repaired form"
+
+def detect_variant(fam, chk=None):
+    """five sentinel cases, one per earlier repair, and the text of export_stack for the sixth (cross-checked by a sentinel case);
+    returns (flags, description)"""
     S = {s["name"]: s for s in fam}
     d = {c["kind"]: c for c in directed_cases(fam)}
     tr = {"op": "tracks", "n": 2, "stack": S["asym-flip"]}
-    r = harness("c08", [strip(tr), strip(d["d_reflect_h"]), strip(d["d_underflow"]), strip(d["d_cut_above_metals"]), strip(d["d_odd_via"])])
+    noraw = no_raw_layer_cases(fam)[0]
+    r = harness("c08", [strip(tr), strip(d["d_reflect_h"]), strip(d["d_underflow"]), strip(d["d_cut_above_metals"]), strip(d["d_odd_via"]), strip(noraw)])
     flip = r[0].get("tracks", [[[0], [0]]])[0][1][0] == 750
     refl = "ok" in r[1] and len(r[1]["ok"][1]) > 0 and [s[1:5] for s in r[1]["ok"][1] if s[0] == 10020] == [[0, 0, 400, 100], [800, 0, 1200, 100]]
     under = "panic" not in r[2]
     bounds = "panic" not in r[3]
     odd = "ok" in r[4] and any(s[0] == 10044 and s[3] - s[1] == 21 for s in r[4]["ok"][0])
-    fx = (flip, refl, under, bounds, odd)
-    names = ("center-span-flip", "blockage-reflect", "assign-underflow", "cell-metals-bounds", "odd-sizes")
-    return fx, {n: ("repaired" if b else "as at the pinned commit") for n, b in zip(names, fx)}
+    raw_text, raw_why = export_stack_marker()
+    raw_seen = "err" in r[5]                                  # behaviour of the sentinel: Err = repaired, panic = as found
+    if raw_text is None:
+        if chk is not None:
+            chk.broken.append("C08 model tie: cannot tell from the source which export_stack the tree has (%s); the sentinel case says %s"
+                              % (raw_why, "repaired" if raw_seen else "as found"))
+        raw_text = raw_seen
+    elif raw_text != raw_seen and chk is not None:
+        chk.broken.append("C08 model tie: the text of export_stack says '%s' but the sentinel case (a metal without raw layer) %s"
+                          % (raw_why, "returns Err" if raw_seen else "does not return Err: " + json.dumps(r[5])[:200]))
+    fx = (flip, refl, under, bounds, odd, raw_text)
+    names = ("center-span-flip", "blockage-reflect", "assign-underflow", "cell-metals-bounds", "odd-sizes", "stack-raw-layers")
+    desc = {n: ("repaired" if b else "as at the pinned commit") for n, b in zip(names, fx)}
+    desc["stack-raw-layers"] += " (source text: %s; sentinel: %s)" % (raw_why, "Err" if raw_seen else "no Err")
+    return fx, desc
 
 # ------------------------------------------------------------------ shrinking
 def shrink(chk, fx, case, rounds=10):
@@ -441,7 +717,7 @@ def shrink(chk, fx, case, rounds=10):
 def gen_cases(chk, fam):
     rng = chk.rng
     quick = chk.tier == "quick"
-    cases = directed_cases(fam)
+    cases = directed_cases(fam) + audit_cases(fam) + no_raw_layer_cases(fam)
     for st in fam:
         cases.append({"op": "tracks", "n": 3 * max(1, max(nsig(m) for m in st["metals"])) + 2, "stack": st, "kind": "tracks"})
     per = 110 if quick else 2500
@@ -464,6 +740,8 @@ def run(chk, replay=None):
                   ["Tetris/Compile_proofs.v", "Tetris/CompileFull_proofs.v"], "Properties.C08")
     kernel_tie_leg(chk, "tetris_stack")       # generated-from-source kernels = the model functions (Properties/KernelsTetris.v)
     kernel_tie_leg(chk, "tetris_tracks")      # Track::cut_or_block generated from the source = the model (Properties/KernelsTetris.v)
+    kernel_tie_leg(chk, "tetris_conv")        # conv/raw.rs track_cross_xy, instance_intersects generated from the source = the model (Properties/KernelsTetrisConv.v)
+    kernel_tie_leg(chk, "tetris_period")      # conv/raw.rs assign_track and the whole export_cell_layer_period (cut span, via rectangle, ..) generated from the source = the model
     chk.assumptions += [
         "isize/usize overflow is not modelled (integers are Z); all coordinates of the run are below 2^31",
         "instances are absolutely placed (Placer::place is the identity on them and keeps their order); cells have a layout view with a rectangular outline, non-empty names, no `places`",
@@ -477,7 +755,7 @@ def run(chk, replay=None):
     if not ok:
         chk.broken.append("harness build failed: " + last_error(out)); return
     fam = stack_family()
-    fx, desc = detect_variant(fam)
+    fx, desc = detect_variant(fam, chk)
     chk.cov["repo_variant"] = desc
     if replay:
         obj = json.load(open(replay))["replay"]
@@ -491,7 +769,7 @@ def run(chk, replay=None):
     chk.cov["rule"] = ("libraries of 1-3 gridded cells over a family of %d layer stacks (the repo's sample stack, asymmetric patterns with and without "
                        "every-other flip, shared rails through overlap, offsets, Repeat, odd sizes, vertical-first), outlines of whole periods up to 6x6 "
                        "primitive pitches (sample stack: up to 10), 1-4 metals, random mostly conflict-free cuts and assignments at in-range crossings, 0-3 "
-                       "instances of lower-metal cells in the four reflections, plus directed malformed inputs; a case is non-trivial when the "
+                       "instances of lower-metal cells in the four reflections, plus directed malformed inputs and stacks with a metal or via layer that has no raw layer; a case is non-trivial when the "
                        "implementation returns Ok and some cell has a cut, an assignment or an instance; distinct by JSON of the case" % len(fam))
     results = evaluate(chk, fx, cases, "c08")
     chk.cov["evaluations"] = len(cases)
@@ -511,6 +789,27 @@ def run(chk, replay=None):
         "classified_outside_wf_not_judged": sum(1 for _, r in oc if (r[0] // 10) & 1 and r[0] % 10 != 2),
         "impl_equals_model": sum(1 for _, r in oc if r[0] % 10 == 0),
         "controls_well_formed_and_judged_ok": sum(1 for _, r in occ if r[0] == 0), "controls": len(occ)}
+    # a panic is always code 2 (c08_check does not look further): whether the MODEL of the tree's variant panics on the same inputs is
+    # evaluated separately, so that "the model follows the tree" is measured on the panicking inputs too
+    pan = [c for c, r in zip(cases, results) if result_kind(r[1]) == 2 and c.get("op") == "compile"]
+    if pan:
+        cls = coq_eval_lists(HDR, [capp("res_class", capp("compile", cfix(fx), cstack(c["stack"]), clist([ccell(x, c["cells"]) for x in c["cells"]])))
+                                   for c in pan], chk.rundir, "c08pan", shard=120)
+        agree = sum(1 for x in cls if parse_z(x) == 2)
+        chk.cov["impl_panics_predicted_by_model"] = {"impl_panics": len(pan), "model_panics_too": agree}
+        if agree != len(pan):
+            c = next(c for c, x in zip(pan, cls) if parse_z(x) != 2)
+            chk.broken.append("correspondence C08: the implementation panics where the model (variant %s) does not, e.g. %s" % (desc, json.dumps(strip(c))[:400]))
+    nr = [(c, r) for c, r in zip(cases, results) if str(c.get("kind", "")).startswith("stack_no_raw_layer:")]
+    if nr:
+        sub = lambda k: [(c, r) for c, r in nr if c["kind"] == "stack_no_raw_layer:" + k]
+        cnt = lambda l: {"cases": len(l), "impl_ok": sum(1 for _, r in l if result_kind(r[1]) == 0), "impl_err": sum(1 for _, r in l if result_kind(r[1]) == 1),
+                         "impl_panic": sum(1 for _, r in l if result_kind(r[1]) == 2), "impl_equals_model_no_panic": sum(1 for _, r in l if r[0] % 10 == 0)}
+        chk.cov["stack_no_raw_layer"] = {
+            "what": "a metal or via layer of the stack has raw = None; outside wf_stackb, inside the no-panic clause: judged for panics and compared with the model; "
+                    "'metal' / 'via' reach a .raw.unwrap() site as found, 'undrawn' never draw on the raw-less layer (Ok as found, Err once export_stack checks it), "
+                    "'early_err' fail before the site, 'tracks' never read raw layers, 'control' = complete stack",
+            **{k: cnt(sub(k)) for k in ("metal", "via", "undrawn", "early_err", "tracks", "control")}}
     chk.cov["shapes_compared"] = sum(len(c) for r in results for c in r[1].get("ok", []))
     chk.add_samples([{"case": strip(c), "impl": r[1], "code": r[0]} for c, r in list(zip(cases, results))[:: max(1, len(cases) // 5)]], k=5)
     mism = [(c, r) for c, r in zip(cases, results) if r[0] % 10 == 1]
